@@ -14,7 +14,7 @@ EXPLANATION = ("Each estimator class is executed on symbolic complex data x and,
 BOUNDS = {
     "quick": "N=3 (4 for MUSIC-free covariance family), order 1, NFFT=4 (all shifts m=1..3) and NFFT=3 for the Fourier estimators; "
              "classes: Periodogram, pcorrelogram, pburg, pyule, pcovar, pmodcovar, pminvar, MultiTapering (+pma, parma for the real/one-sided clause)",
-    "thorough": "adds NFFT in {5, 6, 8}, order 2, N+1",
+    "thorough": "adds NFFT in {5, 6, 8} for the Fourier classes and NFFT=5 for the parametric ones, order 2 at NFFT=4; one-sided NFFT 6; reversal NFFT 5",
 }
 ASSUMPTIONS = ["floats modelled as exact reals", "fft = DFT definition, exact twiddles", "lstsq exact", "multitaper tapers supplied as constants "
                "(first symmetric, second antisymmetric)"]
@@ -121,16 +121,16 @@ def case_reversal(h, name, n, order, cplx):
 def cases(tier, seed):
     q = tier == 'quick'
     out = []
-    T = dict(timeout=120 if q else 600, max_paths=16, feas_timeout=3, wall=500 if q else 2400)
+    T = dict(timeout=120 if q else 300, max_paths=16, feas_timeout=3, wall=500 if q else 900)
     for name in SHIFT_CLASSES:
         fourier = zoo.KIND[name] == 'fourier'
-        ns = ((3, 4) if fourier else (4,)) if q else ((3, 4, 5, 6, 8) if fourier else (4, 5, 6))
+        ns = ((3, 4) if fourier else (4,)) if q else ((3, 4, 5, 6, 8) if fourier else (4, 5))
         for n in ns:
             if name == 'pcorrelogram' and n < 3:
                 continue
             if name == 'pminvar' and n < 4:
                 continue
-            for order in ((1,) if (q or fourier or name == 'pminvar') else (1, 2)):
+            for order in ((1,) if (q or fourier or name == 'pminvar' or n > 4) else (1, 2)):
                 for m in (range(1, n) if (q and n <= 4) or not q else (1, n - 1)):
                     out.append(Case("shift:%s:NFFT=%d:m=%d:order=%d" % (name, n, m, order), case_shift,
                                     dict(name=name, n=n, m=m, order=order), **T))
